@@ -88,6 +88,16 @@ func (b *BlockList) loadInitial() {
 		b.set(entry)
 	}
 
+	// A fresh install has no directory yet. It used to appear only when the
+	// remote refresh ran a second later; a Set/Remove in between returned
+	// success while persist failed at CreateTemp, and a restart before the
+	// next mutation lost the change.
+	if _, err := os.Stat(b.cfg.BlockListDir); os.IsNotExist(err) {
+		if err := os.MkdirAll(b.cfg.BlockListDir, 0750); err != nil {
+			zlog.Error("Create blocklist directory failed", "error", err.Error())
+		}
+	}
+
 	if _, err := os.Stat(b.cfg.BlockListDir); err == nil {
 		if err := b.readBlocklists(); err != nil {
 			zlog.Warn("Read local blocklists failed", "dir", b.cfg.BlockListDir, "error", err.Error())
